@@ -152,15 +152,15 @@ class DocGen:
         if ty == "uint":
             return ["0x%X" % (n % 60000), str(n % 60000)][n % 2]
         if ty == "int":
-            return str((n % 30000) - 15000)
+            return ["0x%X" % (n % 30000), str((n % 30000) - 15000)][n % 2]
         if ty == "ulong":
             return ["0x%X" % (n * 65537 % 4000000000), str(n * 65537 % 4000000000)][n % 2]
         if ty == "long":
-            return str((n * 65537 % 2000000000) - 1000000000)
+            return ["0x%X" % (n * 65537 % 2000000000), str((n * 65537 % 2000000000) - 1000000000)][n % 2]
         if ty == "uint64":
             return ["0x%X" % (n * 4294967311), str(n * 4294967311)][n % 2]
         if ty == "int64":
-            return str(-(n * 4294967311))
+            return ["0x%X" % (n * 4294967311), str(-(n * 4294967311))][n % 2]
         if ty in self.enums:
             ok = [v for v, lo, up in self.enums[ty] if self.in_version(lo, up)]
             return ok[n % len(ok)]
@@ -323,7 +323,7 @@ def deviation_documents(dsl_text):
         for f in pb.fields:
             if not isinstance(f, Ref):
                 continue
-            for tag in f.names[:1]:
+            for tag in f.names:
                 if tag not in blocks or tag in ("A2ML", "IF_DATA"):
                     continue
                 b = blocks[tag]
@@ -353,12 +353,13 @@ def deviation_documents(dsl_text):
                 # deviation is still a fault, but its class depends on what the list consumed
                 has_seq = any(isinstance(x, Seq) for x in b.fields)
                 parent_seq = any(isinstance(x, Seq) for x in pb.fields)
-                if plain and isinstance(plain[-1], Param):
+                first_name = tag == f.names[0]      # further names of one reference (_Y, _Z, ...) share the element parser
+                if first_name and plain and isinstance(plain[-1], Param):
                     make("missing_parameter", "*", True, drop_last=True)
                 if f.mult in "?!" and not has_seq:
                     make("too_many", "InvalidMultiplicityTooMany", False, count=2)
                 make("wrong_block_form", "*" if (parent_seq or has_seq) else ("IncorrectKeywordError" if not b.is_block else "IncorrectBlockError"), True, form=not b.is_block)
-                if any(isinstance(x, Param) and x.ty in enums and not x.dim for x in b.fields):
+                if first_name and any(isinstance(x, Param) and x.ty in enums and not x.dim for x in b.fields):
                     make("unknown_enum_value", "InvalidEnumValue", True, bad_enum=True)
                 if f.vlow:
                     older = [v for v in VERSIONS if v < f.vlow]
@@ -370,7 +371,7 @@ def deviation_documents(dsl_text):
                     newer = [v for v in VERSIONS if v > f.vup]
                     if newer:
                         make("deprecated", "BlockRefDeprecated", False, version=newer[0])
-                for x in b.fields:
+                for x in (b.fields if first_name else []):
                     if isinstance(x, Param) and x.ty in enums and not x.dim:
                         for val, lo, up in enums[x.ty]:
                             if lo:
